@@ -152,8 +152,13 @@ class Schedule(drivers.IrcDriver):
             log.error('Schedule is the only remaining driver, '
                       'why do we continue to live?')
             time.sleep(1) # We're the only driver; let's pause to think.
-        while self.schedule and self.schedule[0][0] < time.time():
+        while True:
             with self.lock:
+                # The test belongs to the critical section: another thread
+                # may remove (or run) the event between the test and the pop.
+                if not (self.schedule and
+                        self.schedule[0][0] < time.time()):
+                    break
                 (t, name, args, kwargs) = heapq.heappop(self.schedule)
                 f = self.events.pop(name)
             try:
